@@ -28,7 +28,7 @@ func main() {
 	}
 	vk.Main(&vk.Check{
 		ID:   "C14",
-		Rule: "bundles: 5 multi-file / multi-package programs (cross-package references both ways, four sibling imports, entity + service + topic over two files, many annotations per field, nested inline types) plus every multi-file program of the reference and mixed families. Explored against the canonical run's bytes: (1) every permutation of the file listing x every permutation of the package listing (n <= 4: all n!; larger: reversal, rotations, adjacent transpositions); (2) every sequence of <= 3 CompilePackage calls (with repetition) on one PackageSet; (3) every ordered pair of bundles compiled one after the other in one process; (4) E3: every iteration order at every owned choice point (Go map ranges, protoreflect Message / Map Range, RangeFiles, RangeExtensions in the 14 compile / print packages) with <= 1 (quick, 5 rich bundles) / <= 2 (thorough, all bundles) points deviating from the sorted order; (5) reported only: 3 fresh processes. A case = one bundle x one listing / call sequence / first deviating choice point",
+		Rule: "bundles: 7 multi-file / multi-package programs (cross-package references both ways, four sibling imports, entity + service + topic over two files, many annotations per field, nested inline types, hand-written proto files referring to j5s types and back) plus every multi-file program of the reference and mixed families. Explored against the canonical run's bytes: (1) every permutation of the file listing x every permutation of the package listing (n <= 4: all n!; larger: reversal, rotations, adjacent transpositions); (2) every sequence of <= 3 CompilePackage calls (with repetition) on one PackageSet; (3) every ordered pair of bundles compiled one after the other in one process; (4) E3: every iteration order at every owned choice point (Go map ranges, protoreflect Message / Map Range, RangeFiles, RangeExtensions in the 14 compile / print packages) with <= 1 (quick, 5 rich bundles) / <= 2 (thorough, all bundles) points deviating from the sorted order; (5) reported only: 3 fresh processes. A case = one bundle x one listing / call sequence / first deviating choice point",
 		Assumptions: []string{
 			"owned choice points are the ones tools/vinstr rewrote (listed in the evidence notes with the sites it left alone); iteration inside protocompile / protobuf-go that is not visible at their API is not owned",
 			"generated protobuf messages deliver known fields in a fixed order and only extension fields in map order (protobuf-go impl); dynamicpb messages deliver every field in map order: vorder permutes exactly those",
@@ -180,12 +180,20 @@ func allBundles() []*bundleCase {
 	for _, c := range gj5s.DeterminismBundles() {
 		out = append(out, prepare(c))
 	}
+	// hand-written proto files in the mix
+	for _, c := range gj5s.MixedLanguageCases() {
+		if c.ID == "mixed-language:both-ways:object:array" || c.ID == "mixed-language:j5s-uses-proto-other-package:enum:map" {
+			c.Family = "bundles"
+			out = append(out, prepare(c))
+		}
+	}
 	return out
 }
 
 func multiFile() []*bundleCase {
 	var out []*bundleCase
 	cases := append(gj5s.ReferenceCases(), gj5s.ServiceCases()...)
+	cases = append(cases, gj5s.MixedLanguageCases()...)
 	cases = append(cases, gj5s.ShapeCases()...)
 	for _, c := range cases {
 		if len(c.P.Files) > 1 {
